@@ -60,13 +60,17 @@ func dial(port int) net.Conn {
 }
 
 var excluded = map[string]bool{
-	"srandmember": true, "hrandfield": true, "randomkey": true, "scan": true, "hscan": true, "sscan": true,
+	"scan": true, "hscan": true, "sscan": true,
 	"ttl": true, "pttl": true, "expiretime": true, "pexpiretime": true, "hello": true, "client": true,
 	"blpop": true, "brpop": true, "blmove": true, "brpoplpush": true, "blmpop": true, "multi": true, "exec": true,
 	"discard": true, "watch": true, "unwatch": true, "select": true, "flushdb": true, "flushall": true,
 	"expire": true, "pexpire": true, "expireat": true, "pexpireat": true, "setex": true, "psetex": true, "getex": true,
 	"incrbyfloat": true, "hincrbyfloat": true, "sort": true, "lcs": true, "keys": true, "dbsize": true,
 }
+
+// replies with a random choice in them: each must be one complete value (the reader takes exactly one
+// per command, so a malformed one derails everything after it), but the two emulators may choose differently
+var shapeOnly = map[string]bool{"srandmember": true, "hrandfield": true, "randomkey": true, "hello": true, "spop": true}
 
 type caseFile struct {
 	Property string   `json:"property"`
@@ -127,6 +131,15 @@ func main() {
 		var cmds [][][]byte
 		n := 1 + rng.Intn(*maxCmds)
 		tries := 0
+		// every third pipeline speaks RESP3
+		resp3 := cs%3 == 2
+		if resp3 {
+			hello := [][]byte{[]byte("HELLO"), []byte("3")}
+			d.MustAsk(fmt.Sprintf("M 1 %d %d %s", time.Now().UnixNano(), len(hello), drv.HexArgs(hello)))
+			cmds = append(cmds, hello)
+			n++
+			stats["resp3_pipelines"]++
+		}
 		for len(cmds) < n && tries < 10*n {
 			tries++
 			_, argv, _ := g.Next()
@@ -163,6 +176,34 @@ func main() {
 			}
 			cmds = append(cmds, b)
 		}
+		if cs%3 != 0 {
+			// reply-shape probes: one command per kind of aggregate reply (map, set, pair list, nested
+			// arrays, nulls inside arrays, doubles), on keys of every type — under RESP2 and RESP3
+			probes := [][]string{
+				{"HSET", "t:h", "a", "1", "b", "2", "c", "3"}, {"SADD", "t:s", "a", "b", "c"},
+				{"RPUSH", "t:l", "a", "b", "c", "a"}, {"SET", "t:str", "10"},
+				{"HGETALL", "t:h"}, {"HRANDFIELD", "t:h", "2", "WITHVALUES"}, {"HRANDFIELD", "t:h", "-3", "WITHVALUES"},
+				{"HRANDFIELD", "t:h", "2"}, {"HRANDFIELD", "t:h"}, {"HRANDFIELD", "t:none", "2", "WITHVALUES"},
+				{"HKEYS", "t:h"}, {"HVALS", "t:h"}, {"HMGET", "t:h", "a", "zz", "b"}, {"HGETALL", "t:none"},
+				{"SMEMBERS", "t:s"}, {"SRANDMEMBER", "t:s", "2"}, {"SRANDMEMBER", "t:s", "-4"}, {"SMISMEMBER", "t:s", "a", "zz"},
+				{"SINTER", "t:s", "t:s"}, {"SUNION", "t:s", "t:none"}, {"SDIFF", "t:s", "t:none"}, {"SMEMBERS", "t:none"},
+				{"LRANGE", "t:l", "0", "-1"}, {"LPOS", "t:l", "a", "COUNT", "0"}, {"LPOP", "t:l", "2"}, {"LMPOP", "1", "t:l", "LEFT"},
+				{"MGET", "t:str", "t:none", "t:h"}, {"GET", "t:none"}, {"EXISTS", "t:h", "t:s"}, {"TYPE", "t:h"},
+				{"HGETALL", "t:s"}, {"SMEMBERS", "t:h"}, {"BITFIELD", "t:str", "GET", "u8", "0", "OVERFLOW", "FAIL", "INCRBY", "u2", "0", "3"},
+			}
+			for _, pr := range probes {
+				b := make([][]byte, len(pr))
+				for i, a := range pr {
+					b[i] = []byte(a)
+				}
+				ans := d.MustAsk(fmt.Sprintf("M 1 %d %d %s", time.Now().UnixNano(), len(b), drv.HexArgs(b)))
+				if strings.HasPrefix(ans, "crash") {
+					continue
+				}
+				cmds = append(cmds, b)
+				stats["shape_probes"]++
+			}
+		}
 		var stream []byte
 		var hexes []string
 		for _, c := range cmds {
@@ -173,7 +214,7 @@ func main() {
 		if cs%4 == 1 {
 			// a last command that makes the pipeline exactly a multiple of the server's 8 KiB read
 			// buffer long: the reads that deliver it are all full, and nothing follows
-			target := ((len(stream) + 64) / 8192 + 1 + rng.Intn(2)) * 8192
+			target := ((len(stream)+64)/8192 + 1 + rng.Intn(2)) * 8192
 			for n := target - len(stream); n > 0; n-- {
 				pad := [][]byte{[]byte("SET"), []byte("pad"), bytes.Repeat([]byte("p"), n)}
 				if e := respio.EncodeCmd(pad); len(stream)+len(e) == target {
@@ -277,11 +318,15 @@ func main() {
 			detail = "split stream: " + errB.Error()
 		} else {
 			for i := range ra {
+				if shapeOnly[strings.ToLower(string(cmds[i][0]))] {
+					stats["shape_only_replies"]++
+					continue
+				}
 				if !bytes.Equal(ra[i], rb[i]) {
 					detail = fmt.Sprintf("reply %d differs: whole=%q split=%q", i, ra[i], rb[i])
 					break
 				}
-				if !respio.Resp2Only(ra[i]) {
+				if !resp3 && !respio.Resp2Only(ra[i]) {
 					detail = fmt.Sprintf("reply %d uses a RESP3 type on a RESP2 connection: %q", i, ra[i])
 					break
 				}
